@@ -536,7 +536,10 @@ func c14CurveTable(r *Report, keyT interface{ String() string }) {
 	{
 		var fn *ssa.Function
 		for _, f := range P.Funcs {
-			if f.Signature.Recv() == nil && len(f.Params) == 1 && f.Params[0].Type().String() == "crypto/elliptic.Curve" && f.Signature.Results().Len() == 1 && isNamed(f.Signature.Results().At(0).Type(), cosePath, "Algorithm") {
+			if f.Signature.Recv() == nil && len(f.Params) == 1 && f.Params[0].Type().String() == "crypto/elliptic.Curve" && f.Signature.Results().Len() >= 1 && f.Signature.Results().Len() <= 2 && isNamed(f.Signature.Results().At(0).Type(), cosePath, "Algorithm") {
+				if f.Signature.Results().Len() == 2 && errIndex(f) != 1 {
+					continue
+				}
 				fn = f
 			}
 		}
